@@ -748,7 +748,7 @@ func checkC03Repeat(c C03RepeatCase) error {
 	for round := 0; round < 40; round++ {
 		var got Res
 		var want string
-		switch c.Which % 4 {
+		switch c.Which % 5 {
 		case 0, 1:
 			// one template name in several search paths of one FileSystemLoader: the first path wins
 			root, err := os.MkdirTemp(workDir(), "c03-")
@@ -771,22 +771,30 @@ func checkC03Repeat(c C03RepeatCase) error {
 			// a with-list whose values read names the list also sets: they read the includer's
 			tm := map[string]string{"main": "{% include 'row' with {id: 7, key: 'row-' ~ id, k2: id ~ '/' ~ key, z: k2} %}", "row": "{{ id }}|{{ key }}|{{ k2 }}|{{ z }}"}
 			got, want = render(newEngine(tm), "main", map[string]interface{}{"id": 1, "key": "outer"}), "7|row-1|1/outer|"
-		default:
+		case 3:
 			tm := map[string]string{"main": "{% include 'row' with {a: b, b: a, c: a ~ b} %}|{% include 'row' with {a: b, b: c, c: a} only %}", "row": "{{ a }}{{ b }}{{ c }}"}
 			got, want = render(newEngine(tm), "main", map[string]interface{}{"a": "A", "b": "B", "c": "C"}), "BAAB|BCA"
+		default:
+			// the values of a with-list are evaluated in the order in which they are written (a
+			// function that counts its calls shows the order)
+			tm := map[string]string{"main": "{% include 'row' with {d: next(), a: next(), c: next(), b: next()} %}|{% include 'row' with {'b': next(), 'a': next(), 'c': next(), 'd': 0} only %}", "row": "{{ a }}{{ b }}{{ c }}{{ d }}"}
+			e := newEngine(tm)
+			n := 0
+			e.AddFunction("next", func(args ...interface{}) (interface{}, error) { n++; return n, nil })
+			got, want = render(e, "main", nil), "2431|6570"
 		}
 		if got.Failed() || got.Out != want {
-			return fmt.Errorf("arrangement %d, round %d of 40 (each built from scratch): rendered %v, want %s", c.Which%4, round, got, q(want))
+			return fmt.Errorf("arrangement %d, round %d of 40 (each built from scratch): rendered %v, want %s", c.Which%5, round, got, q(want))
 		}
 	}
 	return nil
 }
 
 func TestC03Repeat(t *testing.T) {
-	r := NewRec(t, "C03", "exhaustive: 4 arrangements built and rendered 40 times from scratch each: one template name in 2 and in 5 search paths of a FileSystemLoader (the first path wins), include with-lists whose values read names that the list also sets (they read the including template's variables, in every order); expected text written out; all cases non-trivial")
+	r := NewRec(t, "C03", "exhaustive: 5 arrangements built and rendered 40 times from scratch each: one template name in 2 and in 5 search paths of a FileSystemLoader (the first path wins), include with-lists whose values read names that the list also sets (they read the including template's variables, in every order), a with-list whose values call a counting function (evaluated in the order written); expected text written out; all cases non-trivial")
 	defer r.Flush()
 	r.SetExhaustive()
-	for i := 0; i < 4; i++ {
+	for i := 0; i < 5; i++ {
 		c := C03RepeatCase{Which: i}
 		r.Case(fmt.Sprint(i), true, i)
 		if err := checkC03Repeat(c); err != nil {
